@@ -120,10 +120,15 @@ def main():
                  "(hypotheses discharged for all reachable states, conclusions strengthened to the property's words, "
                  "histories of any length, damage operators on valid states, strengthened abstract machines) are listed in DESIGN.md section 12.5; "
                  "every obligation named in the OBLIGATIONS line of Props/%s.v is re-checked (make + Print Assumptions) on every run." % i)
+        if i in ("C01", "C02", "C03", "C04", "C05", "C06", "C07", "C08", "C09", "C10", "C11", "C16"):
+            text += (" The correspondence check additionally runs a small-scope exhaustive exploration (DESIGN.md 12.7): the extracted model "
+                     "enumerates every logical state reachable over small key universes (closures) and every short operation sequence around "
+                     "three-level start states, and one history per (state, operation) pair is compared between model and implementation; "
+                     "the scopes covered by a run are listed in its evidence file (coverage.small_scope_exhaustive).")
         checks.append(dict(
             property_id=i, quick_cmd=f"./vp check {i} --tier quick", thorough_cmd=f"./vp check {i} --tier thorough",
             evidence_file=f"evidence/{i}.json", replay_cmd_template="./vp replay {path}", engine="coq-model+correspondence",
-            level_claimed=dict(category="proof", text=text, design_ref="DESIGN.md sections 7, 12.5 and 13, " + i),
+            level_claimed=dict(category="proof", text=text, design_ref="DESIGN.md sections 7, 12.5, 12.7 and 13, " + i),
             level_note=note,
             technique="machine-checked proof in Coq (Rocq 8.16) about an executable model + differential correspondence check of model vs implementation"))
     m = dict(
